@@ -9,7 +9,8 @@ from ..val import veq, clone, kind
 
 ID = 'C14'
 NEED_BINS = False
-SIZES = {'quick': 20000, 'thorough': 1000000}
+SIZES = {'quick': 20000, 'thorough': 3000000}
+REQUIRED_EVENTS = ['encodings_agreed', 'invalid_rejected', 'inverse_checked', 'format_texts_checked']
 RULE = ('$-free scalars, flat and nested maps and lists (list-valued and empty-string entries for tolist/flags, lists of lists with empty '
         'sublists for flatten, lists of maps), every transform (base64 sha256 json yaml toml jsonl json-pretty join prefix flatten tolist values '
         'flags) and stacks of up to 3 transforms with valid and invalid arguments, hosted as map keys, $value and list entry. Oracles: '
